@@ -4,7 +4,10 @@ The truth condition of the predicate's result is computed from the code as a ter
 
     exists v in <iterable>: body      any(gen) / for-loop with early return / first-match helper + `is not None` / next(gen, None) /
                                       truthiness of a list comprehension / flag loop / for-else
-    match(kind, pattern, subject)     re.match / re.search / re.fullmatch / <pattern>.match / .search / .fullmatch
+    match(kind, pattern, subject)     re.match / re.search / re.fullmatch / <pattern>.match / .search / .fullmatch; kind "apply" = an element
+                                      of the collection called as a function (`m(s)`): the collection must then hold the bound methods
+                                      `re.compile(x).match` (re.match(compiled, s) == compiled.match(s)); `.search` / `.fullmatch`
+                                      kept there are VIOLATIONs
     and / or / not / const / atom(text)
 
 where pattern and subject are *origins*: the predicate's parameter, str(parameter), a quantified variable, an attribute of self, or
@@ -13,8 +16,8 @@ overloads are selected by the argument's type.  Required shape:
 
     str overload     exists p in self.<A>: match("match", p, <the parameter>)
     Path overload    the same with subject str(<the parameter>)
-    self.<A>         built in __init__ as  re.compile(x) for *every* x of the configured patterns (comprehension / tuple(map(...)) /
-                     append loop), no flags, no filter
+    self.<A>         built in __init__ as  re.compile(x)  [or re.compile(x).match, see "apply"]  for *every* x of the configured patterns
+                     (comprehension / tuple(map(...)) / append loop), no flags, no filter
 
 Anything else is reported: a different match kind (not start-anchored / full match), another subject (`obj.name`, derived strings),
 skipped patterns, flags -> VIOLATION naming the construct; a shape the term language cannot express -> undecided.
